@@ -710,6 +710,446 @@ pub fn main(ctx: &Ctx) {
             c15_strategy(),
             c15_eval,
         ),
+        "C16" => campaign(
+            ctx,
+            Campaign {
+                total_cases: ctx.pick(600, 15_000),
+                max_shrink_iters: 200,
+                limits: Limits { cpu_s: 30, wall_s: 180, as_bytes: 4 << 30 },
+                meta: Meta {
+                    rule: "histories of 2-12(24) ops over one local writer (or reader) and up to 3 remote readers (writers), each in its own participant: create, delete, set_qos to an incompatible/compatible deadline, move the remote group to another partition and back, silent crash of the remote participant (100 s lease expiry in virtual time), status reads, writes; model R-COUNT: current_count == |matched set|, total_count == number of became-matched transitions, change fields == difference since last read; wire monitor: no DATA/HEARTBEAT toward the participant of a reader that left the matched set; non-trivial = an endpoint left or re-entered the matched set; distinct = hash of the case",
+                    assumptions: &[
+                        "deterministic simulation, loss-free network, 1.5 s virtual quiescence after each discovery-relevant op, 102 s after a crash",
+                        "one remote endpoint per remote participant so that wire traffic toward a participant identifies the endpoint",
+                    ],
+                    nontrivial_floor: 100,
+                },
+            },
+            c16_strategy(ctx.tier == vcore::Tier::Thorough),
+            c16_eval,
+        ),
         _ => unreachable!(),
     }
+}
+
+// ------------------------------------------------------------------------------------------
+// C16: matched-status counts track the matched set (R-COUNT)
+
+#[derive(Clone, Debug, Serialize, Deserialize)]
+pub enum C16Op {
+    /// create remote endpoint k (in its own participant) if it does not exist
+    Create { k: u8 },
+    Delete { k: u8 },
+    /// make remote endpoint k incompatible (deadline) / compatible again
+    SetIncompatible { k: u8, incompatible: bool },
+    /// move remote endpoint k's group to another partition / back
+    SetPartition { k: u8, other: bool },
+    /// silently partition the participant of remote endpoint k (lease expiry follows)
+    Crash { k: u8 },
+    ReadStatus,
+    /// write a sample on the writer side (local or remote)
+    Write,
+}
+
+#[derive(Clone, Debug, Serialize, Deserialize)]
+pub struct C16Case {
+    /// true: local writer + remote readers; false: local reader + remote writers
+    pub local_is_writer: bool,
+    pub ops: Vec<C16Op>,
+}
+
+pub fn c16_strategy(thorough: bool) -> BoxedStrategy<C16Case> {
+    let n = if thorough { 24 } else { 12 };
+    let op = prop_oneof![
+        4 => (0u8..3).prop_map(|k| C16Op::Create { k }),
+        2 => (0u8..3).prop_map(|k| C16Op::Delete { k }),
+        3 => (0u8..3, any::<bool>()).prop_map(|(k, incompatible)| C16Op::SetIncompatible { k, incompatible }),
+        2 => (0u8..3, any::<bool>()).prop_map(|(k, other)| C16Op::SetPartition { k, other }),
+        1 => (0u8..3).prop_map(|k| C16Op::Crash { k }),
+        3 => Just(C16Op::ReadStatus),
+        2 => Just(C16Op::Write),
+    ];
+    (any::<bool>(), prop::collection::vec(op, 2..n))
+        .prop_map(|(local_is_writer, ops)| C16Case { local_is_writer, ops })
+        .boxed()
+}
+
+struct Remote {
+    participant: dust_dds::dds_async::domain_participant::DomainParticipantAsync,
+    net_idx: usize,
+    group_partition_other: bool,
+    incompatible: bool,
+    crashed: bool,
+    writer: Option<(dust_dds::dds_async::publisher::PublisherAsync, DataWriterAsync<KeyedData>)>,
+    reader: Option<(dust_dds::dds_async::subscriber::SubscriberAsync, DataReaderAsync<KeyedData>)>,
+    _topic: dust_dds::dds_async::topic::TopicAsync,
+    /// matched with the local endpoint per the model
+    matched: bool,
+    /// virtual time at which it left the matched set (for the wire-silence check)
+    left_at: Option<u64>,
+}
+
+#[derive(Default, Clone, Debug, Serialize, Deserialize)]
+struct C16Obs {
+    setup_error: Option<String>,
+    verdict: Option<(String, String)>,
+    classes: Vec<String>,
+    ops_done: usize,
+}
+
+const OFFERED_DEADLINE_S: i32 = 40;
+
+fn c16_wqos(incompatible: bool) -> DataWriterQos {
+    // remote writer: incompatible = offers a longer deadline than the local reader requests
+    DataWriterQos {
+        reliability: ReliabilityQosPolicy { kind: ReliabilityQosPolicyKind::Reliable, max_blocking_time: dk_ms(100) },
+        deadline: DeadlineQosPolicy {
+            period: DurationKind::Finite(Duration::new(if incompatible { OFFERED_DEADLINE_S + 20 } else { OFFERED_DEADLINE_S }, 0)),
+        },
+        ..Default::default()
+    }
+}
+fn c16_rqos(incompatible: bool) -> DataReaderQos {
+    // remote reader: incompatible = requests a shorter deadline than the local writer offers
+    DataReaderQos {
+        reliability: ReliabilityQosPolicy { kind: ReliabilityQosPolicyKind::Reliable, max_blocking_time: dk_ms(100) },
+        deadline: DeadlineQosPolicy {
+            period: DurationKind::Finite(Duration::new(if incompatible { OFFERED_DEADLINE_S - 20 } else { OFFERED_DEADLINE_S }, 0)),
+        },
+        ..Default::default()
+    }
+}
+
+async fn c16_scenario(c: C16Case) -> C16Obs {
+    use crate::exec::with_world;
+    let mut o = C16Obs::default();
+    let f = factory();
+    let local = f.create_participant(0, QosKind::Default, NO_LISTENER, NO_STATUS).await.unwrap();
+    let ltopic = local.create_topic::<KeyedData>("T", "KeyedData", QosKind::Default, NO_LISTENER, NO_STATUS).await.unwrap();
+    let lpub = local.create_publisher(QosKind::Default, NO_LISTENER, NO_STATUS).await.unwrap();
+    let lsub = local.create_subscriber(QosKind::Default, NO_LISTENER, NO_STATUS).await.unwrap();
+    let lwriter = if c.local_is_writer {
+        Some(lpub.create_datawriter::<KeyedData>(&ltopic, QosKind::Specific(c16_wqos(false)), NO_LISTENER, NO_STATUS).await.unwrap())
+    } else {
+        None
+    };
+    let lreader = if !c.local_is_writer {
+        Some(lsub.create_datareader::<KeyedData>(&ltopic, QosKind::Specific(c16_rqos(false)), NO_LISTENER, NO_STATUS).await.unwrap())
+    } else {
+        None
+    };
+    let mut remotes: Vec<Option<Remote>> = vec![None, None, None];
+    let mut next_net_idx = 1usize;
+    // model
+    let mut total = 0i32;
+    let mut last_read_total = 0i32;
+    let mut last_read_current = 0i32;
+    let mut classes = std::collections::BTreeSet::new();
+    let mut seq = 0u32;
+
+    macro_rules! settle {
+        ($ms:expr) => {
+            exec::sleep_ms($ms).await
+        };
+    }
+    let all_ops: Vec<C16Op> = c.ops.iter().cloned().chain([C16Op::Write, C16Op::ReadStatus]).collect();
+    'ops: for (opi, op) in all_ops.iter().enumerate() {
+        o.ops_done = opi;
+        match op {
+            C16Op::Create { k } => {
+                let k = *k as usize;
+                if remotes[k].is_some() {
+                    continue;
+                }
+                let p = f.create_participant(0, QosKind::Default, NO_LISTENER, NO_STATUS).await.unwrap();
+                let t = p.create_topic::<KeyedData>("T", "KeyedData", QosKind::Default, NO_LISTENER, NO_STATUS).await.unwrap();
+                let mut r = Remote {
+                    participant: p.clone(),
+                    net_idx: next_net_idx,
+                    group_partition_other: false,
+                    incompatible: false,
+                    crashed: false,
+                    writer: None,
+                    reader: None,
+                    _topic: t.clone(),
+                    matched: true,
+                    left_at: None,
+                };
+                next_net_idx += 1;
+                if c.local_is_writer {
+                    let s = p.create_subscriber(QosKind::Default, NO_LISTENER, NO_STATUS).await.unwrap();
+                    let rd = s.create_datareader::<KeyedData>(&t, QosKind::Specific(c16_rqos(false)), NO_LISTENER, NO_STATUS).await.unwrap();
+                    r.reader = Some((s, rd));
+                } else {
+                    let pb = p.create_publisher(QosKind::Default, NO_LISTENER, NO_STATUS).await.unwrap();
+                    let w = pb.create_datawriter::<KeyedData>(&t, QosKind::Specific(c16_wqos(false)), NO_LISTENER, NO_STATUS).await.unwrap();
+                    r.writer = Some((pb, w));
+                }
+                remotes[k] = Some(r);
+                total += 1;
+                classes.insert("create".to_string());
+                settle!(1500);
+            }
+            C16Op::Delete { k } => {
+                let k = *k as usize;
+                let Some(r) = remotes[k].as_mut() else { continue };
+                if r.crashed {
+                    continue;
+                }
+                let r = remotes[k].take().unwrap();
+                if let Some((s, rd)) = &r.reader {
+                    if s.delete_datareader(rd).await.is_err() {
+                        o.setup_error = Some("delete_datareader failed".into());
+                        break 'ops;
+                    }
+                }
+                if let Some((pb, w)) = &r.writer {
+                    if pb.delete_datawriter(w).await.is_err() {
+                        o.setup_error = Some("delete_datawriter failed".into());
+                        break 'ops;
+                    }
+                }
+                if r.matched {
+                    classes.insert("delete_matched".to_string());
+                }
+                settle!(1500);
+                // keep the participant alive (only the endpoint is deleted), remember for wire silence
+                let left = Remote { matched: false, left_at: Some(exec::now_ns()), writer: None, reader: None, ..r };
+                remotes[k] = None;
+                // wire-silence check for a deleted reader
+                if c.local_is_writer {
+                    if let Some(v) = c16_silence_check(&lwriter, &left, &mut seq).await {
+                        o.verdict = Some(v);
+                        break 'ops;
+                    }
+                }
+                let _ = left.participant;
+            }
+            C16Op::SetIncompatible { k, incompatible } => {
+                let k = *k as usize;
+                let Some(r) = remotes[k].as_mut() else { continue };
+                if r.crashed || r.incompatible == *incompatible {
+                    continue;
+                }
+                let res = if let Some((_, rd)) = &r.reader {
+                    rd.set_qos(QosKind::Specific(c16_rqos(*incompatible))).await
+                } else if let Some((_, w)) = &r.writer {
+                    w.set_qos(QosKind::Specific(c16_wqos(*incompatible))).await
+                } else {
+                    Ok(())
+                };
+                if let Err(e) = res {
+                    o.setup_error = Some(format!("set_qos(deadline) failed: {e:?}"));
+                    break 'ops;
+                }
+                r.incompatible = *incompatible;
+                let now_matched = !r.incompatible && !r.group_partition_other;
+                if now_matched && !r.matched {
+                    total += 1;
+                    classes.insert("rematch_after_qos_change".to_string());
+                }
+                if !now_matched && r.matched {
+                    r.left_at = Some(exec::now_ns());
+                    classes.insert("unmatch_by_qos_change".to_string());
+                }
+                r.matched = now_matched;
+                settle!(1500);
+            }
+            C16Op::SetPartition { k, other } => {
+                let k = *k as usize;
+                let Some(r) = remotes[k].as_mut() else { continue };
+                if r.crashed || r.group_partition_other == *other {
+                    continue;
+                }
+                let part = PartitionQosPolicy { name: if *other { vec!["elsewhere".to_string()] } else { vec![] } };
+                let res = if let Some((s, _)) = &r.reader {
+                    s.set_qos(QosKind::Specific(SubscriberQos { partition: part, ..Default::default() })).await
+                } else if let Some((pb, _)) = &r.writer {
+                    pb.set_qos(QosKind::Specific(PublisherQos { partition: part, ..Default::default() })).await
+                } else {
+                    Ok(())
+                };
+                if let Err(e) = res {
+                    o.setup_error = Some(format!("set_qos(partition) failed: {e:?}"));
+                    break 'ops;
+                }
+                r.group_partition_other = *other;
+                let now_matched = !r.incompatible && !r.group_partition_other;
+                if now_matched && !r.matched {
+                    total += 1;
+                    classes.insert("rematch_after_partition_change".to_string());
+                }
+                if !now_matched && r.matched {
+                    r.left_at = Some(exec::now_ns());
+                    classes.insert("unmatch_by_partition_change".to_string());
+                }
+                r.matched = now_matched;
+                settle!(1500);
+            }
+            C16Op::Crash { k } => {
+                let k = *k as usize;
+                let Some(r) = remotes[k].as_mut() else { continue };
+                if r.crashed {
+                    continue;
+                }
+                r.crashed = true;
+                let idx = r.net_idx;
+                with_world(|w| w.net.endpoints[idx].connected = false);
+                if r.matched {
+                    classes.insert("lease_expiry_with_matched_endpoint".to_string());
+                }
+                r.matched = false;
+                // lease is 100 s; one worker period + margin
+                settle!(102_000);
+                r.left_at = Some(exec::now_ns());
+            }
+            C16Op::Write => {
+                seq += 1;
+                let sample = KeyedData { id: 1, seq, blob: vec![1, 2, 3] };
+                if let Some(w) = &lwriter {
+                    let _ = crate::util::timeout(2_000, w.write(sample, None)).await;
+                } else {
+                    for r in remotes.iter().flatten() {
+                        if let (Some((_, w)), false) = (&r.writer, r.crashed) {
+                            let _ = crate::util::timeout(2_000, w.write(KeyedData { id: 1, seq, blob: vec![1] }, None)).await;
+                        }
+                    }
+                }
+                settle!(300);
+            }
+            C16Op::ReadStatus => {
+                let expected_current = remotes.iter().flatten().filter(|r| r.matched).count() as i32;
+                let (cur, tot, cur_change, tot_change) = if let Some(w) = &lwriter {
+                    match w.get_publication_matched_status().await {
+                        Ok(s) => (s.current_count, s.total_count, s.current_count_change, s.total_count_change),
+                        Err(e) => {
+                            o.setup_error = Some(format!("get_publication_matched_status: {e:?}"));
+                            break 'ops;
+                        }
+                    }
+                } else {
+                    match lreader.as_ref().unwrap().get_subscription_matched_status().await {
+                        Ok(s) => (s.current_count, s.total_count, s.current_count_change, s.total_count_change),
+                        Err(e) => {
+                            o.setup_error = Some(format!("get_subscription_matched_status: {e:?}"));
+                            break 'ops;
+                        }
+                    }
+                };
+                let side = if c.local_is_writer { "publication" } else { "subscription" };
+                let history: Vec<String> = classes.iter().cloned().collect();
+                let cause = history
+                    .iter()
+                    .rev()
+                    .find(|c| c.starts_with("lease") || c.starts_with("unmatch") || c.starts_with("rematch") || c.starts_with("delete"))
+                    .cloned()
+                    .unwrap_or_else(|| "create".into());
+                if cur != expected_current {
+                    o.verdict = Some((
+                        format!("C16:current_count:{side}:{}:after-{cause}", if cur > expected_current { "too-high" } else { "too-low" }),
+                        format!("op #{opi}: {side}_matched.current_count is {cur} but {expected_current} remote endpoints are currently matched (history classes {history:?})"),
+                    ));
+                    break 'ops;
+                }
+                if tot != total {
+                    o.verdict = Some((
+                        format!("C16:total_count:{side}:{}:after-{cause}", if tot > total { "too-high" } else { "too-low" }),
+                        format!("op #{opi}: {side}_matched.total_count is {tot} but {total} distinct became-matched transitions happened (history classes {history:?})"),
+                    ));
+                    break 'ops;
+                }
+                if cur_change != cur - last_read_current || tot_change != tot - last_read_total {
+                    o.verdict = Some((
+                        format!("C16:change-fields:{side}"),
+                        format!("op #{opi}: change fields ({cur_change}, {tot_change}) differ from the difference since the last read ({}, {})", cur - last_read_current, tot - last_read_total),
+                    ));
+                    break 'ops;
+                }
+                last_read_current = cur;
+                last_read_total = tot;
+            }
+        }
+        // wire silence toward endpoints that left the matched set (local writer only)
+        if c.local_is_writer && matches!(op, C16Op::Write) {
+            for r in remotes.iter().flatten() {
+                if let (Some(t), false) = (r.left_at, r.matched) {
+                    let idx = r.net_idx;
+                    let offending = with_world(|w| {
+                        w.net.log.iter().any(|rec| {
+                            rec.from == 0
+                                && rec.to == idx
+                                && rec.class == crate::net::Class::User
+                                && rec.t_ns > t + 200_000_000
+                                && vcore::wire::parse(&rec.data)
+                                    .map(|m| m.subs.iter().any(|s| matches!(s.sub, vcore::wire::Sub::Data { .. } | vcore::wire::Sub::DataFrag { .. } | vcore::wire::Sub::Heartbeat { .. })))
+                                    .unwrap_or(false)
+                        })
+                    });
+                    if offending {
+                        let why = if r.crashed { "lease-expiry" } else if r.incompatible { "qos-incompatible" } else { "partition-change" };
+                        o.verdict = Some((
+                            format!("C16:still-addressed:{why}"),
+                            format!("op #{opi}: DATA/HEARTBEAT still sent to the participant of a reader that left the matched set ({why}) more than 200 ms earlier"),
+                        ));
+                        break 'ops;
+                    }
+                }
+            }
+        }
+    }
+    o.classes = classes.into_iter().collect();
+    o
+}
+
+/// after a remote reader was deleted: a fresh write must not be addressed to its participant
+async fn c16_silence_check(
+    lwriter: &Option<DataWriterAsync<KeyedData>>,
+    left: &Remote,
+    seq: &mut u32,
+) -> Option<(String, String)> {
+    use crate::exec::with_world;
+    let w = lwriter.as_ref()?;
+    let t0 = exec::now_ns();
+    *seq += 1;
+    let _ = crate::util::timeout(2_000, w.write(KeyedData { id: 1, seq: *seq, blob: vec![9] }, None)).await;
+    exec::sleep_ms(600).await;
+    let idx = left.net_idx;
+    let offending = with_world(|w| {
+        w.net.log.iter().any(|rec| {
+            rec.from == 0
+                && rec.to == idx
+                && rec.class == crate::net::Class::User
+                && rec.t_ns >= t0
+                && vcore::wire::parse(&rec.data)
+                    .map(|m| m.subs.iter().any(|s| matches!(s.sub, vcore::wire::Sub::Data { .. } | vcore::wire::Sub::DataFrag { .. } | vcore::wire::Sub::Heartbeat { .. })))
+                    .unwrap_or(false)
+        })
+    });
+    if offending {
+        Some((
+            "C16:still-addressed:deleted-reader".into(),
+            "DATA/HEARTBEAT sent to the participant of a reader 1.5 s after that reader was deleted".into(),
+        ))
+    } else {
+        None
+    }
+}
+
+pub fn c16_eval(case: &C16Case) -> CaseResult {
+    let mut res = CaseResult::default();
+    match exec::run(c16_scenario(case.clone())) {
+        Ok(o) => {
+            if let Some(e) = &o.setup_error {
+                res.harness_error = Some(e.clone());
+            } else {
+                res.verdict = o.verdict.clone();
+                res.classes = o.classes.clone();
+                res.nontrivial = o.classes.iter().any(|c| c.starts_with("unmatch") || c.starts_with("rematch") || c.starts_with("lease") || c.starts_with("delete_matched"));
+                res.info = json!({"ops_done": o.ops_done});
+            }
+        }
+        Err(a) => apply_abort("C16", &mut res, a),
+    }
+    res.sim = sim_stats();
+    res
 }
